@@ -104,6 +104,14 @@ class Run:
                 scen = res["scen"].get(sid)
                 if scen is None:
                     continue
+                # vacuity guard: a scenario that ended normally has one return event per call of its script (unless a
+                # precondition stopped it: Skip event); otherwise the harness lost an event and nothing was checked
+                ncall = sum(1 for ln in scen["lines"] if ln.startswith("call ") and not ln.startswith("call heap"))
+                nret = sum(1 for v in vs if v["e"] == "Ret" and v["fn"] != "heap")
+                ended_ok = any(v["e"] == "Done" and not any(c.startswith("C19.abnormal_end") for c in v["bad"]) for v in vs)
+                skipped = any(v["e"] == "Skip" for v in vs) or any(ln.startswith(("use ", "mark ")) for ln in scen["lines"])
+                if ended_ok and not skipped and ncall and (nret == 0 or nret % ncall != 0):      # (solo + threaded run: twice)
+                    raise Broken("scenario %s: %d calls in the script but %d return events in the trace %s" % (sid, ncall, nret, res["trace"]))
                 bad_here = []
                 for v in vs:
                     for cl in v["bad"]:
